@@ -431,12 +431,20 @@ func runStress(c strCase, dir string) (any, error) {
 	}
 	ctx := context.Background()
 	names := map[string]string{"u1": "main.journal", "u2": "a.journal", "u3": "b.journal"}
+	edInc := map[string]bool{"u2": true, "u3": true}
 	text := func(u string, v int) string {
 		// the first transaction is off by exactly v: a publication tells which version it was computed from
 		// every version DECLARES its own account as well: what counts as declared depends on the version of every file
 		t := ccText(u, v) + fmt.Sprintf("\n2024-04-01 marker\n    equity:marker  %d XVER\n    equity:zero  0 XVER\n\naccount assets:v%d\n", v, v)
 		if u == "u1" {
-			t = "include a.journal\ninclude b.journal\n" + t
+			// the include directives of the root as the editor holds them (Lifecycle.tla: inc); "link" / "unlink" edit them
+			pre := ""
+			for _, w := range []string{"u2", "u3"} {
+				if edInc[w] {
+					pre += "include " + names[w] + "\n"
+				}
+			}
+			t = pre + t
 		}
 		return t
 	}
@@ -516,6 +524,11 @@ func runStress(c strCase, dir string) (any, error) {
 			opIndex.Store(int32(i))
 			if !c.Serial && rng.Intn(4) == 0 {
 				time.Sleep(time.Duration(rng.Intn(300)) * time.Microsecond) // seeded jitter: vary which steps of the background jobs the next message meets
+			}
+			if op.Op == "link" || op.Op == "unlink" {
+				// a change of the root document that adds / removes the directive `include <op.URI>`
+				edInc[op.URI] = op.Op == "link"
+				op = strOp{Op: "change", URI: "u1"}
 			}
 			u := uris[op.URI]
 			switch op.Op {
@@ -663,7 +676,13 @@ func runStress(c strCase, dir string) (any, error) {
 	}
 	lineOf := func(u string) uint32 {
 		if u == "u1" {
-			return 3
+			n := uint32(1)
+			for _, on := range edInc {
+				if on {
+					n++
+				}
+			}
+			return n
 		}
 		return 1
 	}
@@ -750,7 +769,7 @@ func runStress(c strCase, dir string) (any, error) {
 		}
 	}
 	sort.Slice(stale, func(i, j int) bool { return stale[i]["what"] < stale[j]["what"] })
-	state := map[string]any{"open": open, "versions": vers}
+	state := map[string]any{"open": open, "versions": vers, "inc": edInc}
 	out["final"] = map[string]any{"asked": len(want), "stale": stale, "state": state}
 	return out, nil
 }
